@@ -54,6 +54,19 @@ class SafeRedis(_Redis):
     __aenter__ = initialize
 
 
+class UnsafePipeline(Pipeline):
+    async def execute(self, raise_on_error=True):
+        try:
+            return await super().execute(raise_on_error)
+        except (
+            RedisConnectionError,
+            socket.gaierror,
+            OSError,
+            asyncio.TimeoutError,
+        ) as exp:
+            raise CacheBackendInteractionError() from exp
+
+
 class SafePipeline(Pipeline):
     async def execute(self, raise_on_error=False):
         try:
